@@ -350,12 +350,14 @@ def check(model, rep, tier):
     fi0 = base.methods[m]
     # (private helpers expanded: the lookup may be shared by both methods)
     fi = core.FuncInfo(fi0.module, fi0.view(keep=('_get_key',)), cls=fi0.cls)
-    keys = [n for n in ast.walk(fi.node) if isinstance(n, ast.Assign) and
-            core.norm(n.value) == 'self._get_key(%s)' % fi.params()[0]]
-    uses = [c for c in ast.walk(fi.node) if isinstance(c, ast.Call) and
-            core.norm(c.func) == 'self._cache.get']
-    ok = len(keys) == 1 and all(core.norm(c.args[0]) == core.norm(
-        keys[0].targets[0]) for c in uses) and bool(uses)
+    # every lookup / store in the dictionary is keyed by _get_key(entity),
+    # through a local or directly
+    kcall = 'self._get_key(%s)' % fi.params()[0]
+    uses = [c.args[0] for c in ast.walk(fi.node) if isinstance(c, ast.Call) and
+            core.norm(c.func) in ('self._cache.get', 'self._cache.setdefault') and c.args]
+    uses += [n.slice for n in ast.walk(fi.node) if isinstance(n, ast.Subscript) and
+             core.norm(n.value) == 'self._cache']
+    ok = bool(uses) and all(tpl.xnorm(fi, u, u) == kcall for u in uses)
     rep.check(ok, 'CACHE-KEY', '%s:uses-key-function' % fi0.site,
               '%s must look the entity up under _get_key(entity)' % m,
               line=fi0.node.lineno)
